@@ -178,7 +178,69 @@ func c05Rules(tier string) []Rule {
 		core.Custom{ID: "C05.PROV2", Kind: "PROV", Run: func(w *core.World, id string) []core.Result {
 			return core.ArgProvenance(w, id, disr, `^call disr\.GetCandidatesWithTotals\(`, 6, `^closure:\(disr\.Method\)\.ShouldDisrupt\$bound$`, "candidates are filtered with the same method's ShouldDisrupt")
 		}},
+		// the re-validation after the delay charges the same reason's budgets as the method that produced the command
+		core.Custom{ID: "C05.SYM1", Kind: "SYM", Run: c05ValidatorReasons},
 	}
+}
+
+// C05.SYM1: every function that stores validation.reason stores the constant that the Reason() method of the method type
+// whose ConsolidationType it records returns.
+func c05ValidatorReasons(w *core.World, id string) []core.Result {
+	reStore := regexp.MustCompile(`^store \S*<disr\.validation>\.reason = (".*")$`)
+	reFilter := regexp.MustCompile(`^store \S*\.validationType = (\(\*disr\.\w+\))\.ConsolidationType\(&local<disr\.\w+>\)$`)
+	reAny := regexp.MustCompile(`^store .*\.reason = `)
+	var out []core.Result
+	n := 0
+	for _, fn := range w.Fns {
+		if core.IsTestSupport(fn) || !strings.Contains(core.FnName(fn), "disr.") {
+			continue
+		}
+		for _, st := range w.Sites(fn, reAny, false) {
+			s, ok := st.(*ssa.Store)
+			if !ok {
+				continue
+			}
+			fa, ok := s.Addr.(*ssa.FieldAddr)
+			if !ok || core.TypeStr(fa.X.Type()) != "*disr.validation" {
+				continue
+			}
+			n++
+			name := core.FnName(fn)
+			construct := "SYM:validation.reason@" + name
+			m := reStore.FindStringSubmatch(w.RenderInstr(st))
+			if m == nil {
+				out = append(out, core.Bad(id, "SYM", construct, w.InstrPos(st), "validation.reason is not a constant here: `"+clipStr(w.RenderInstr(st), 100)+"`"))
+				continue
+			}
+			var method string
+			for _, f := range w.Sites(fn, reFilter, false) {
+				method = reFilter.FindStringSubmatch(w.RenderInstr(f))[1]
+			}
+			if method == "" {
+				out = append(out, core.Bad(id, "SYM", construct, w.InstrPos(st), "the validator built here does not take its validationType from a method value; its budget reason cannot be matched to a method"))
+				continue
+			}
+			rf := w.Fn(method + ".Reason")
+			if rf == nil {
+				out = append(out, core.Anchor(id, "SYM", method+".Reason"))
+				continue
+			}
+			rets := w.Sites(rf, regexp.MustCompile(`^return `), false)
+			if len(rets) != 1 || w.RenderInstr(rets[0]) != "return "+m[1] {
+				got := "?"
+				if len(rets) == 1 {
+					got = w.RenderInstr(rets[0])
+				}
+				out = append(out, core.Bad(id, "SYM", construct, w.InstrPos(st), fmt.Sprintf("the validator re-checks budgets for reason %s but validates commands of %s, whose Reason() is `%s`: after the validation delay a different reason's budgets are charged", m[1], method, got)))
+				continue
+			}
+			out = append(out, core.OK(id, "SYM", construct, 1, "reason "+m[1]+" = "+method+".Reason()"))
+		}
+	}
+	if n < 3 {
+		return []core.Result{core.Bad(id, "SYM", "SYM:validation.reason", "", fmt.Sprintf("vacuous: %d validator constructors found, 3 confirmed by hand", n))}
+	}
+	return out
 }
 
 // C05.DOM1: Budget.GetAllowedDisruptions result shapes.
